@@ -207,6 +207,12 @@ func safeRun(b *Batch, c *RunCtx) (out *Outcome) {
 			st := string(debug.Stack())
 			// keep the first library frame for the class
 			site := panicSite(st)
+			if site == "?" {
+				// no library frame on the stack: the harness itself is broken;
+				// that is infrastructure trouble, never a violation
+				fmt.Fprintf(os.Stderr, "harness panic (no library frame): %v\n%s\n", r, st)
+				os.Exit(2)
+			}
 			out = &Outcome{Class: "panic", Key: "panic@" + site, Detail: fmt.Sprintf("panic: %v (at %s)", r, site),
 				Human: map[string]any{"stack": st}}
 		}
